@@ -116,6 +116,28 @@ func rsaDecryptRef(priv *rsa.PrivateKey, ct []byte) ([]byte, error) {
 	return out, nil
 }
 
+// rsaDecryptRefCached: most mutations of a signed request keep the secret; the
+// reference decrypts each distinct (fingerprint, secret) once per case.
+type refDec struct {
+	pt  []byte
+	err error
+}
+
+var refDecCache = map[string]refDec{}
+
+func rsaDecryptRefCached(fp, secret string, priv *rsa.PrivateKey, ct []byte) ([]byte, error) {
+	k := fp + "\x00" + secret
+	if d, ok := refDecCache[k]; ok {
+		return d.pt, d.err
+	}
+	pt, err := rsaDecryptRef(priv, ct)
+	if len(refDecCache) > 4096 {
+		refDecCache = map[string]refDec{}
+	}
+	refDecCache[k] = refDec{pt, err}
+	return pt, err
+}
+
 // ------------------------------------------------------------------ AES-ECB / PKCS#7 reference
 
 func refEcbEncrypt(key, plain []byte) []byte {
@@ -204,10 +226,20 @@ type csReq struct {
 	Body   []byte `json:"body"`
 	Header string `json:"x_content_security"` // "" with NoHdr => header absent
 	NoHdr  bool   `json:"header_absent,omitempty"`
+	// UnknownLength: the body is sent without a Content-Length (chunked on the wire, ContentLength -1 in-process)
+	UnknownLength bool `json:"unknown_content_length,omitempty"`
+	// ReqURI: value of an X-Request-Uri header ("" = header absent)
+	ReqURI string `json:"x_request_uri,omitempty"`
 }
 
-func (p csParams) request() csReq {
-	return csReq{Method: p.Method, Path: p.Path, Query: p.Query, Body: p.Body, Header: csHeader(p.Fingerprint, p.secret(), p.signature())}
+func (p csParams) request() csReq { return p.build("") }
+
+// build renders the request; sec is a previously computed p.secret() ("" = encrypt now).
+func (p csParams) build(sec string) csReq {
+	if sec == "" {
+		sec = p.secret()
+	}
+	return csReq{Method: p.Method, Path: p.Path, Query: p.Query, Body: p.Body, Header: csHeader(p.Fingerprint, sec, p.signature())}
 }
 
 // ------------------------------------------------------------------ reference verifier
@@ -249,7 +281,7 @@ func refVerifyCS(q csReq, configured map[string]*rsa.PrivateKey, now, tolSec int
 	if err != nil {
 		return csVerdict{reason: "secret-not-base64"}
 	}
-	inner, err := rsaDecryptRef(priv, ct)
+	inner, err := rsaDecryptRefCached(fp, secret, priv, ct)
 	if err != nil {
 		return csVerdict{reason: "secret-does-not-decrypt"}
 	}
